@@ -275,6 +275,11 @@ pub fn process_file_with_cache(
 
     let path_key = file_path.to_string_lossy().replace('\\', "/");
 
+    // Racy-clean rule (as in git's index): a file whose mtime second is not older than this
+    // clock reading can be rewritten within that second without changing (mtime, size), so its
+    // entry could be trusted wrongly by a later run. Such entries are not stored.
+    let observed_at = state::try_current_unix_timestamp().unwrap_or(0);
+
     // Get file metadata for fast cache validation
     let (mtime, size) = match reader.metadata(file_path) {
         Ok(meta) => meta,
@@ -319,7 +324,9 @@ pub fn process_file_with_cache(
         };
 
         // Update cache with metadata (lock errors here are non-critical, just skip update)
-        if let Ok(mut cache_guard) = cache.lock() {
+        if mtime < observed_at
+            && let Ok(mut cache_guard) = cache.lock()
+        {
             cache_guard.set(&path_key, file_hash, &result, mtime, size);
         }
 
